@@ -42,6 +42,8 @@ fn table(prop: &str) -> Option<(CountFn, GenFn, RunFn)> {
         "C04P" => (c04p::count, c04p::gen, c04p::run),
         "C02" => (c02::count, c02::gen, c02::run),
         "C03" => (c03::count, c03::gen, c03::run),
+        "C07" => (c07::count, c07::gen, c07::run),
+        "C08" => (c08::count, c08::gen, c08::run),
         "C10" => (c10::count, c10::gen, c10::run),
         "C11" => (c11::count, c11::gen, c11::run),
         "C12" => (c12::count, c12::gen, c12::run),
@@ -175,6 +177,7 @@ fn main() {
                 k += stride;
             }
             lab::drop_specimens();
+            c07::drop_fixtures();
             util::emit(&json!({"t": "done"}));
         }
         "replay" => {
@@ -193,6 +196,28 @@ fn main() {
             util::emit(&out.to_json(0));
             lab::drop_specimens();
             util::emit(&json!({"t": "done"}));
+        }
+        "c09-case" => {
+            // print the descriptor of the C09 case (profile, packaging)
+            let case = c09::gen_case(seed, &args.s("profile", "content-larger"), c01::Pkg::parse(&args.s("pkg", "onefile")));
+            println!("{}", case.to_json());
+        }
+        "c09-child" => {
+            let text = std::fs::read_to_string(args.s("case-file", "")).expect("case file");
+            let case = cont::ContCase::from_json(&serde_json::from_str(&text).expect("json"));
+            let dir = PathBuf::from(args.s("dir", "."));
+            let rc = match util::catch(|| c09::child(&case, &dir, &args.s("name", "c.jbk"), args.u64("ignore-xfsz", 0) == 1)) {
+                Ok(rc) => rc,
+                Err(_) => 101,
+            };
+            std::process::exit(rc);
+        }
+        "c09-inspect" => {
+            let text = std::fs::read_to_string(args.s("case-file", "")).expect("case file");
+            let case = cont::ContCase::from_json(&serde_json::from_str(&text).expect("json"));
+            let dest = PathBuf::from(args.s("dest", "c.jbk"));
+            let old = args.kv.get("old-dir").map(PathBuf::from);
+            println!("{}", c09::inspect(&case, &dest, old.as_deref()));
         }
         _ => {
             eprintln!("usage: jbkverif plan|run|replay <PROP> [--seed N --tier quick|thorough --from A --to B --stride S --work DIR]");
